@@ -273,7 +273,7 @@ Section Parser.
       match toks st with
       | TTLit (LInt u) _ sp :: r =>
           match u with
-          | Some n => if index_fits n then POk (FIndex n) {| toks := r; ctr := ctr st; unx := unx st |}
+          | Some n => if index_fits n then POk (FIndex n sp) {| toks := r; ctr := ctr st; unx := unx st |}
                       else PErr sp (ctr st)                  (* checked_index: "tuple index is too large" *)
           | None => PErr sp (ctr st)                         (* base10_parse::<usize>() fails *)
           end
@@ -368,7 +368,7 @@ Section Parser.
     name <- p_field_name ;;
     more <- p_ops_loop fuel ;;
     let ops := ((if Nat.eqb stars 0 then [] else [ODeref stars sp]) ++
-               (match name with FIdent s nsp => ONamed s nsp sp | FIndex n => OUnnamed n sp end) :: more)%list in
+               (match name with FIdent s nsp => ONamed s nsp sp | FIndex n _ => OUnnamed n sp end) :: more)%list in
     match ops with
     | [] => panic "field.rs: Must have at least field name"
     | [o] => ret o
@@ -434,7 +434,7 @@ Section Parser.
   Definition root_is (ops : fop) (pos : N) : option bool :=      (* None: root_field_name panics *)
     match root_field_name ops with
     | None => None
-    | Some (FIndex i) => Some (N.eqb i pos)
+    | Some (FIndex i _) => Some (N.eqb i pos)
     | Some (FIdent _ _) => Some false
     end.
 
